@@ -100,6 +100,10 @@ def values_equal(I, a, b):
             s.neq.append(o)
         return False
     if isinstance(a, Adt) and isinstance(b, Adt):
+        if a.path == b.path:
+            item = I.dispatch_local_trait("std::cmp::PartialEq", "eq", [a])
+            if item is not None and not item.expn and item.key not in I.callstack[-3:]:
+                return truth(I, I.call_item(item, [Ref(Place(Cell(a))), Ref(Place(Cell(b)))]))
         if a.variant != b.variant:
             return False
         for k in set(a.fields) | set(b.fields):
@@ -153,6 +157,11 @@ def binop(I, op, l, r, e=None):
     if op == "Ne":
         return not values_equal(I, a, b)
     num = lambda x: isinstance(x, int) and not isinstance(x, bool)
+    # derived ordering of single-field newtypes (Size(usize), Depth(usize)): compare the field
+    while isinstance(a, Adt) and isinstance(b, Adt) and a.path == b.path and a.variant == b.variant and \
+            len(a.fields) == 1 and len(b.fields) == 1 and op in ("Lt", "Le", "Gt", "Ge"):
+        a = strip(list(a.fields.values())[0])
+        b = strip(list(b.fields.values())[0])
     if isinstance(a, Char) and isinstance(b, Char):
         a, b = ord(a.c), ord(b.c)
     if num(a) and num(b):
@@ -208,6 +217,14 @@ def as_list(I, v):
         return v
     if isinstance(v, Adt) and v.variant in ("Some", "None") and v.path == OPTION:
         return RList([v.fields["0"]] if v.variant == "Some" else [])
+    if isinstance(v, Adt) and v.path in ("std::ops::Range", "std::ops::RangeInclusive"):
+        lo, hi = strip(v.fields.get("start")), strip(v.fields.get("end"))
+        if isinstance(lo, int) and isinstance(hi, int):
+            if v.path.endswith("Inclusive"):
+                hi += 1
+            if hi - lo > 4096:
+                raise Abort("range too long to unroll")
+            return RList(list(range(lo, hi)))
     return None
 
 
@@ -1630,3 +1647,60 @@ def m_partial_cmp(I, args, fn, expr):
     if item is not None and not item.expn:
         return I.call_item(item, args)
     return some(_ordering(I, args[0], args[1]))
+
+
+@model("std::iter::Iterator::cycle")
+def m_iter_cycle(I, args, fn, expr):
+    src = _as_iter(I, args[0])
+    state = {"items": None, "i": 0}
+
+    def nxt():
+        if state["items"] is None:
+            state["items"] = drain(I, src)
+        if not state["items"]:
+            raise StopIteration
+        v = state["items"][state["i"] % len(state["items"])]
+        state["i"] += 1
+        return deep_copy(v)
+    return RIter(nxt, "cycle")
+
+
+@model("std::char::methods::<impl char>::to_string", "std::char::methods::<impl char>::len_utf8")
+def m_char_misc(I, args, fn, expr):
+    c = strip(args[0])
+    if fn["name"] == "len_utf8":
+        return len(c.c.encode()) if isinstance(c, Char) else Sym("len_utf8(%s)" % _nm(c))
+    return c.c if isinstance(c, Char) else c
+
+
+# `vec![a, b]` expands to box_assume_init_into_vec_unsafe(write_box_via_move(Box::new_uninit(), [a, b]))
+@model("alloc::intrinsics::write_box_via_move", "std::intrinsics::write_box_via_move", "core::intrinsics::write_box_via_move")
+def m_write_box_via_move(I, args, fn, expr):
+    return args[1]
+
+
+@model("std::boxed::box_assume_init_into_vec_unsafe", "alloc::boxed::box_assume_init_into_vec_unsafe")
+def m_box_into_vec(I, args, fn, expr):
+    v = strip(args[0])
+    if isinstance(v, RList):
+        return RList(list(v.items))
+    return I.top("vec! contents not understood: %r" % (v,))
+
+
+@model("std::boxed::Box::<T>::new_uninit")
+def m_box_new_uninit(I, args, fn, expr):
+    return Sym("uninit-box")
+
+
+@model("std::fmt::Formatter::<'a>::write_fmt", "std::fmt::Write::write_fmt", "std::io::Write::write_fmt")
+def m_write_fmt(I, args, fn, expr):
+    text = m_fmt_format(I, [args[1]], fn, expr)
+    I.emit("write", text.text() if isinstance(text, StrB) else str(text))
+    return ok(UNIT)
+
+
+@model("std::fmt::Formatter::<'a>::write_str")
+def m_write_str(I, args, fn, expr):
+    t = strip(args[1])
+    I.emit("write", t.text() if isinstance(t, StrB) else str(t))
+    return ok(UNIT)
